@@ -38,6 +38,23 @@ Fixpoint list_diff (a b : list kv) : list change :=
        end) b
   end.
 
+(* the same merge with the considerAllRowsModified flag: with the flag set, a key
+   present on both sides is reported as Modified even when the values are equal *)
+Fixpoint list_diff_g (am : bool) (a b : list kv) : list change :=
+  match a with
+  | [] => map (fun e => Added (fst e) (snd e)) b
+  | (ka, va) :: a' =>
+    (fix inner (b : list kv) : list change :=
+       match b with
+       | [] => map (fun e => Removed (fst e) (snd e)) a
+       | (kb, vb) :: b' =>
+         if ka <? kb then Removed ka va :: list_diff_g am a' b
+         else if kb <? ka then Added kb vb :: inner b'
+         else if am || negb (va =? vb) then Modified ka va vb :: list_diff_g am a' b'
+         else list_diff_g am a' b'
+       end) b
+  end.
+
 Definition in_range (lo hi : option key) (k : key) : bool :=
   match lo with None => true | Some l => l <=? k end
   && match hi with None => true | Some h => k <? h end.
